@@ -9,13 +9,12 @@ Import ListNotations.
 Open Scope R_scope.
 
 Theorem C17_no_commitment_term_in_eval :
-  forall (return_loss has_commit : bool) (cw mse : R),
-       commit_term return_loss has_commit false cw mse = 0.
+  forall (has_commit : bool) (cw mse : R), commit_term has_commit false cw mse = 0.
 Proof. exact (@commit_zero_in_eval). Qed.
 Print Assumptions C17_no_commitment_term_in_eval.
 
 Theorem C17_commitment_term_in_training :
-  forall cw mse : R, commit_term false true true cw mse = cw * mse.
+  forall cw mse : R, commit_term true true cw mse = cw * mse.
 Proof. exact (@commit_present_in_training). Qed.
 Print Assumptions C17_commitment_term_in_training.
 
@@ -88,13 +87,13 @@ Proof. exact (@orth_penalty_identical). Qed.
 Print Assumptions C17_orthogonal_penalty_identical_codes.
 
 Theorem C17_tie_commit_guard :
-  forall return_loss has_commit training : bool,
-       g_vq_commit.g_vq_commit return_loss has_commit training = negb return_loss && training && has_commit.
+  forall has_commit training : bool,
+       g_vq_commit.g_vq_commit has_commit training = training && has_commit.
 Proof. exact (@glue_commit_guard). Qed.
 Print Assumptions C17_tie_commit_guard.
 
 Theorem C17_tie_commit_guard_atoms :
-  g_vq_commit.g_vq_commit_atoms = ["return_loss"; "self_has_commitment_loss"; "self_training"].
+  g_vq_commit.g_vq_commit_atoms = ["self_has_commitment_loss"; "self_training"].
 Proof. exact (@glue_commit_guard_atoms). Qed.
 Print Assumptions C17_tie_commit_guard_atoms.
 
